@@ -1,6 +1,7 @@
 import Qryn.Read.Cursor
 import Qryn.Read.Assembly
 import Qryn.Prom.Select
+import Qryn.Prof.Selector
 /-! Line protocol for C17.
     `c17cursor <samples> <ops>` — samples `ts:v,ts:v,…` (`-` = empty slice), ops `n` (Next), `a` (At),
     `s<t>` (Seek t) comma separated; answer: outputs in call order, `T`/`F`/`ts:v`/`!` (fault), comma separated.
@@ -9,7 +10,9 @@ import Qryn.Prom.Select
     `fp=ts:v|ts:v;fp=…` (`-` = no series, `!` = fault).
     `c17fpsql <table> <hex fromDate> <type> <matchers>` — matchers `eq|ne|re|nre:<hex name>:<hex value>` comma
     separated; answer: hex of the text of the `fp_sel` sub-query, or `unsupported`.
-    `c17scan <fromNs> <toNs>` — hex of the two bounds of the raw-sample scan as rendered. -/
+    `c17scan <fromNs> <toNs>` — hex of the two bounds of the raw-sample scan as rendered.
+    `c17profsql <table> <hex fromDate> <hex toDate> <selectors>` — selectors `eq|ne|re|nre:<hex name>:<hex value>`;
+    answer: hex of the text of the Pyroscope selector query, or `unsupported`. -/
 namespace Driver.C17
 open Qryn.Read.Cursor
 
@@ -82,7 +85,27 @@ def fpsql (table date tp ms : String) : Option String := do
   | none => some "unsupported"
   | some q => some (Qryn.hexOut q.render)
 
+def parseSelector (s : String) : Option Qryn.Prof.Selector :=
+  match s.splitOn ":" with
+  | [t, n, v] =>
+    let op : Option Qryn.Prof.Op :=
+      if t = "eq" then some .eq else if t = "ne" then some .ne else if t = "re" then some .re
+      else if t = "nre" then some .nre else none
+    match op, Qryn.ofHex n, Qryn.ofHex v with
+    | some op, some n, some v => some ⟨n, op, v⟩
+    | _, _, _ => none
+  | _ => none
+
+def profsql (table d1 d2 sels : String) : Option String := do
+  let d1 ← Qryn.ofHex d1
+  let d2 ← Qryn.ofHex d2
+  let sels ← allSome ((parseList sels).map parseSelector)
+  match Qryn.Prof.plan table d1 d2 sels with
+  | none => some "unsupported"
+  | some q => some (Qryn.hexOut q.render)
+
 def handle : List String → Option String
+  | ["c17profsql", table, d1, d2, sels] => profsql table d1 d2 sels
   | ["c17fpsql", table, date, tp, ms] => fpsql table date tp ms
   | ["c17scan", a, b] => match a.toInt?, b.toInt? with
     | some a, some b => some (Qryn.hexOut (Qryn.Prom.renderScan a b))
